@@ -59,6 +59,9 @@ type Match struct {
 // Pat is a bare pattern used as a condition.
 type Pat struct{ Re string }
 
+// RawPat is a pattern expression given as concrete syntax (pattern concatenations with constants, in mutants).
+type RawPat struct{ Text string }
+
 type Call struct {
 	Fn   string
 	Args []Expr
@@ -72,6 +75,7 @@ func (c Cap) typ() Type    { return c.T }
 func (r Ref) typ() Type    { return r.T }
 func (Match) typ() Type    { return TBool }
 func (Pat) typ() Type      { return TBool }
+func (RawPat) typ() Type   { return TBool }
 func (c Call) typ() Type   { return c.T }
 func (b Bin) typ() Type {
 	switch b.Op {
@@ -129,9 +133,10 @@ type DecoDef struct {
 	Body []Stmt
 }
 type Program struct {
-	Decls []Decl
-	Defs  []DecoDef
-	Stmts []Stmt
+	Consts []string // `const NAME /re/` lines (mutants only)
+	Decls  []Decl
+	Defs   []DecoDef
+	Stmts  []Stmt
 }
 
 // ---- printer
@@ -193,6 +198,8 @@ func PrintExpr(e Expr) string {
 		return s
 	case Pat:
 		return "/" + x.Re + "/"
+	case RawPat:
+		return x.Text
 	case Match:
 		op := " =~ "
 		if x.Neg {
@@ -263,6 +270,9 @@ func printStmts(b *strings.Builder, ss []Stmt, ind string) {
 
 func (p *Program) String() string {
 	var b strings.Builder
+	for _, k := range p.Consts {
+		b.WriteString(k + "\n")
+	}
 	for _, d := range p.Decls {
 		if d.Hidden {
 			b.WriteString("hidden ")
